@@ -264,6 +264,9 @@ impl<'a> Exec<'a> {
             Ok(r) => r,
             Err(e) => return (0, format!("err:http:{}", e.replace(' ', "_"))),
         };
+        if st >= 500 && std::env::var("VERIF_DEBUG").is_ok() {
+            eprintln!("debug: {method} {path} -> {st} {text}");
+        }
         let ok = (200..300).contains(&st);
         let json: Option<Value> = if ok { serde_json::from_str(&text).ok() } else { None };
         let payload = match route {
